@@ -304,6 +304,9 @@ func (g G) planC11() *Plan {
 			m = &MsgSpec{Kind: "probe", ProbeEP: "slo", SP: g.intn(lab+".sp", nsp), Binding: "post", Style: g.drawStyle(lab + ".st")}
 		case 2:
 			m = &MsgSpec{Kind: "probe", ProbeEP: "attr", SP: g.intn(lab+".sp", nsp), Style: g.drawStyle(lab + ".st")}
+			if g.chance(lab+".subj", 30) {
+				m.SubjMode = g.pick(lab+".subjm", "unknown", "unknown", "absent")
+			}
 		case 3:
 			m = &MsgSpec{Kind: "probe", ProbeEP: "sso", SP: g.intn(lab+".sp", nsp), Binding: g.drawBinding(lab + ".b"), Unsigned: true}
 		case 4:
